@@ -212,17 +212,46 @@ def mem_key(events, i, backend, m_steps=None):
     return None
 
 
+SUPPORTED = {"abor", "appe", "cdup", "cwd", "dele", "epsv", "list", "mkd", "mlsd", "mlst", "pass", "pasv", "pbsz", "prot", "pwd",
+             "quit", "rest", "retr", "rmd", "rnfr", "rnto", "stor", "syst", "type", "user"}
+
+
 def oracles(ctx, table, events, obs, backend="memory"):
     """the property text, evaluated on the implementation alone"""
     history = [[v, a, (p.decode("latin-1") if p is not None else None)] for v, a, p in events]
     prev_ended = False
-    rest_armed = None  # offset set by the last REST, consumed by the next transfer
+    armed = 0          # offset set by a REST that was the IMMEDIATELY preceding command (350), else 0
+    pristine = True    # no command that can change the tree has been sent yet: file contents are those of TREE
+    cwd_known = "/"    # only histories that never change directory are judged by the byte oracle
     for i, ((verb, arg, payload), ob) in enumerate(zip(events, obs)):
         v = verb.lower()
         if verb == ftpsim.DATACONN or prev_ended:
             prev_ended = prev_ended or ob["ended"]
             continue
         codes = ob["codes"]
+        if v in ("stor", "appe", "dele", "rnfr", "rnto", "mkd", "rmd"):
+            pristine = False
+        if v in ("cwd", "cdup"):
+            cwd_known = None
+        elif v == "user":
+            homes = [u.get("home", "/") for u in USERS[table] if u["login"] == arg]
+            cwd_known = homes[0] if homes else None
+        if v == "retr" and pristine and cwd_known == "/" and ob["bytes"] is not None and "226" in codes and "/" not in arg.strip("/") and ".." not in arg:
+            content = TREE.get(arg.strip("/"))
+            if isinstance(content, bytes) and ob["bytes"] != content[armed:]:
+                ctx.violation(
+                    "property oracle: the restart offset applies only to the immediately following transfer",
+                    {"key": "c05-rest-offset-applies-to-later-transfer" if armed == 0 else "c05-rest-offset-not-applied",
+                     "table": table, "backend": backend, "history": history[: i + 1], "at": i, "codes": codes,
+                     "served": ob["bytes"].decode("latin-1"), "expected": content[armed:].decode("latin-1"), "armed_offset": armed},
+                )
+                return
+        if v == "rest" and codes == ["350"] and arg.isascii() and arg.isdigit():
+            armed = int(arg)
+        elif v in SUPPORTED:
+            armed = 0
+        # an UNSUPPORTED verb (502) is not a command of the session: it leaves a pending offset pending (the existing
+        # rest-survives-command oracle makes the same exception)
         finals = [c for c in codes if not c.startswith("1")]
         marks = [c for c in codes if c.startswith("1")]
         why = None
@@ -248,9 +277,58 @@ def oracles(ctx, table, events, obs, backend="memory"):
         prev_ended = ob["ended"]
 
 
+# transfers that are turned down before their worker body runs, by the stage that refuses them
+REFUSED_TRANSFERS = [
+    ("RETR", "missing", None),      # 550 path_must_exists
+    ("RETR", "d", None),            # 550 path_must_be_file
+    ("STOR", "d/f/x", b"XY"),       # 550 parent is not a directory
+    ("APPE", "missing/x", b"XY"),   # 550 parent missing
+    ("FOO", "x", None),             # 502: an unsupported verb - the one thing that does NOT consume a pending offset
+]
+NEXT_TRANSFERS = [("RETR", "g", None), ("RETR", "d/f", None), ("STOR", "g", b"XY"), ("APPE", "g", b"XY"), ("STOR", "new", b"abc")]
+BETWEEN = [[], [("PWD", "", None)], [("TYPE", "I", None), ("SYST", "", None)], [("CWD", "d", None), ("CDUP", "", None)]]
+
+
+def rest_scope_histories(rng, thorough):
+    """'the restart offset applies only to the immediately following transfer': REST n, then a transfer that is turned
+    down at each stage a transfer can be turned down at (550 by a path condition, 503 without a listener, 150 + 425 without
+    a data connection, 451 inside the worker) or any other command, then 0-2 other commands, then a transfer that had no
+    REST of its own - with and without a data connection in place.  (login prefix is added by the caller)"""
+    out = []
+    pasv = [("PASV", "", None), (ftpsim.DATACONN, "", None)]
+    for n in ("4", "3"):
+        rest = [("REST", n, None)]
+        for nxt in NEXT_TRANSFERS:
+            for mid in BETWEEN:
+                # (1) refused by a decorator (550) / unknown verb, listener + data connection in place
+                for bad in REFUSED_TRANSFERS:
+                    out.append(pasv + rest + [bad] + mid + [nxt, ("PWD", "", None)])
+                # (2) refused for want of a listener (503), listener made afterwards
+                out.append(rest + [("RETR", "g", None)] + mid + pasv + [nxt, ("PWD", "", None)])
+                # (3) accepted (150) but no data connection arrives (425); the data connection is made afterwards
+                out.append([("PASV", "", None)] + rest + [("RETR", "g", None)] + mid + [(ftpsim.DATACONN, "", None), nxt, ("PWD", "", None)])
+                # (4) worker fails inside (451: RETR of a directory cannot be requested; STOR onto a directory)
+                out.append(pasv + rest + [("STOR", "d", b"XY"), (ftpsim.DATACONN, "", None)] + mid + [nxt, ("PWD", "", None)])
+                # (5) the REST is overridden by a refused REST
+                out.append(pasv + rest + [("REST", "abc", None)] + mid + [nxt, ("PWD", "", None)])
+    if thorough:
+        return out
+    # quick: every (stage, next transfer) pair once, the in-between commands round-robin
+    keep = [h for i, h in enumerate(out) if i % len(BETWEEN) == (i // len(BETWEEN)) % len(BETWEEN) or i % 7 == 0]
+    return rng.sample(keep, min(len(keep), 140))
+
+
 def gen_history(rng, n):
     ev = []
-    for _ in range(n):
+    while len(ev) < n:
+        if rng.random() < 0.06:
+            # REST; something that is not a completed transfer; a transfer
+            ev.append(("REST", rng.choice(["3", "4", "10"]), None))
+            ev.append(rng.choice(REFUSED_TRANSFERS + [("RETR", "g", None), ("PWD", "", None)]))
+            if rng.random() < 0.5:
+                ev.append((ftpsim.DATACONN, "", None))
+            ev.append(rng.choice(NEXT_TRANSFERS))
+            continue
         verb, arg = rng.choice(ALPHABET)
         payload = rng.choice(PAYLOADS) if verb in ("STOR", "APPE") else None
         ev.append((verb, arg, payload))
@@ -266,7 +344,9 @@ def correspondence(ctx, budget=None):
     ctx.extra["rule"] = (
         "histories over the alphabet {25 verbs + unknown verbs + the pseudo-event 'peer connects the data channel'} x arguments "
         "{existing file/dir, missing, aliases with .., path through a file, //, REST numerals incl. non-ASCII digits, TYPE/PROT/EPSV "
-        "arguments} x upload payloads: (a) every single event and (quick: a sample of; thorough: every) pair of events after a login "
+        "arguments} x upload payloads: (a2) REST n followed by a transfer turned down at every stage (550 path condition, 503 no listener, "
+        "150+425 no data connection, 451 inside the worker, refused REST, unknown verb), 0-2 other commands, then a transfer with no REST of "
+        "its own; (a) every single event and (quick: a sample of; thorough: every) pair of events after a login "
         "prefix, (b) random histories of length <= 25 with and without login, on user tables T1/T2; memory backend always, PathIO and "
         "AsyncPathIO on a subset. After every event: reply codes, PWD text, bytes/listing on the data channel, session state probe "
         "(logged, user, cwd, pending rename, restart offset, listener, data connection) and finally the tree are compared with the model. "
@@ -305,6 +385,11 @@ def correspondence(ctx, budget=None):
         jobs.append(("T1", LOGIN["T1"] + [("PASV", "", None), (ftpsim.DATACONN, "", None)] + t, "memory"))
         jobs.append(("T1", LOGIN["T1"] + [("PASV", "", None), (ftpsim.DATACONN, "", None)] + t, "path"))
     ctx.count("targeted", 2 * len(targeted))
+    # (a2) the scope of REST across transfers that never ran
+    rs = rest_scope_histories(rng, thorough)
+    for k, t in enumerate(rs):
+        jobs.append(("T1", LOGIN["T1"] + t, "path" if k % 5 == 0 else "memory"))
+    ctx.count("rest_scope", len(rs))
     # (b) random histories
     n_rand = 2500 if thorough else 350
     for k in range(n_rand):
@@ -331,7 +416,13 @@ def correspondence(ctx, budget=None):
         ctx.count("backend_" + backend)
         for v, a, p in h:
             verbs_seen[v.lower()] = verbs_seen.get(v.lower(), 0) + 1
-        obs, tree = run_impl(table, h, backend)
+        try:
+            obs, tree = run_impl(table, h, backend)
+        except Exception as e:  # noqa: BLE001 - the (mutated) implementation raised inside the driver: an observation
+            hist = [[v, a, (p.decode("latin-1") if p is not None else None)] for v, a, p in h]
+            ctx.disagree("session-exception", {"key": "c05-driver-exception", "table": table, "backend": backend, "history": hist},
+                         "the model has a prediction for every event", repr(e))
+            continue
         ok = compare(ctx, table, h, mo, obs, tree, backend)
         oracles(ctx, table, h, obs, backend)
         if ok and len(xcheck) < 25 and len(h) < 8:
